@@ -121,6 +121,10 @@ def items(tier):
             if k1 in CONST_KINDS and k2 in CONST_KINDS:
                 continue
             out.append(("order", k1, k2))
+    for k1 in ["nan", "nanf", "cmpnode", "ifnode", "cse", "lookup", "lnot", "power", "fdiv", "bor", "slice", "minn", "deriv", "fsym"]:
+        for k2 in ["var", "0", "1", "sum", "nan"]:
+            out.append(("order", k1, k2))
+            out.append(("order", k2, k1))
     return out
 
 
@@ -491,7 +495,13 @@ def _check_order(item):
     A = {}
     for n, t in _atoms_for(k1, "1") + _atoms_for(k2, "2"):
         A[n] = 3 if t == "const" else p.Variable(n)
-    l, r = _operand(k1, A, "1"), _operand(k2, A, "2")
+    x_, y_ = p.Variable("x"), p.Variable("y")
+    extra = {"nan": p.NaN(), "nanf": p.NaN(float), "cmpnode": p.Comparison(x_, "<", y_), "ifnode": p.If(p.Comparison(x_, "<", y_), x_, y_),
+             "cse": p.CommonSubexpression(x_ + y_), "lookup": p.Lookup(x_, "fld"), "lnot": p.LogicalNot(x_), "power": x_ ** y_,
+             "fdiv": x_ // y_, "bor": p.BitwiseOr((x_, y_)), "slice": p.Slice((x_, y_)), "minn": p.Min((x_, y_)),
+             "deriv": p.Derivative(x_, ("u",)), "fsym": p.FunctionSymbol() if hasattr(p, "FunctionSymbol") else p.Variable("fs")}
+    l = extra[k1] if k1 in extra else _operand(k1, A, "1")
+    r = extra[k2] if k2 in extra else _operand(k2, A, "2")
     res.paths = 1
     for nm, f in (("<", op.lt), ("<=", op.le), (">", op.gt), (">=", op.ge)):
         res.path_assertions += 1
